@@ -202,9 +202,9 @@ class Ctx:
             for other, oc in self.lits.items():
                 self.axioms.append(c != oc)  # different literal strings are different strings
             # literal vs templates
-            for key, f in self.templates.items():
-                self._lit_vs_template(s, c, key, f)
             self.lits[s] = c
+            for key, f in list(self.templates.items()):
+                self._lit_vs_template(s, c, key, f)
         return self.lits[s]
 
     def type_lit(self, s):
@@ -241,9 +241,9 @@ class Ctx:
                 self._assoc(parts, f, key, g)
                 self._assoc(key, g, parts, f)
                 self._same_head(parts, f, key, g)
-            for s, c in self.lits.items():
-                self._lit_vs_template(s, c, parts, f)
             self.templates[parts] = f
+            for s, c in list(self.lits.items()):
+                self._lit_vs_template(s, c, parts, f)
         return self.templates[parts]
 
     @staticmethod
@@ -282,7 +282,7 @@ class Ctx:
             ys = [self.fresh_name("ay") for _ in range(len(b) - 1)]
             lhs = f(*(xs[:-1] + [g(*([xs[-1]] + ys[1:]))]))
             rhs = g(*([f(*xs)] + ys[1:]))
-            self.axioms.append(z3.ForAll(xs + ys[1:], lhs == rhs, patterns=[lhs]))
+            self.axioms.append(z3.ForAll(xs + ys[1:], lhs == rhs, patterns=[lhs, rhs]))  # rewrite in either direction
             self.strfacts.append(("assoc", a, b))
 
     def _lit_vs_template(self, s, c, parts, f):
@@ -292,6 +292,11 @@ class Ctx:
             xs = [self.fresh_name("tx") for _ in range(len(parts) - 1)]
             self.axioms.append(z3.ForAll(xs, f(*xs) != c))
             self.strfacts.append(("lit", s, parts))
+        elif len(parts) == 2:
+            # the literal IS an instance of the one-hole template: "x_y_ha_s" == f"x_y_ha_{'s'}"
+            mid = s[len(parts[0]):len(s) - len(parts[1])]
+            self.axioms.append(f(self.name_lit(mid)) == c)
+            self.strfacts.append(("lit-instance", s, parts, mid))
 
     # -- cardinalities: a Skolem function of the enclosing scope variables with sound axioms
     def len_of_multiset(self, mem, cnt, tag="len"):
@@ -342,7 +347,7 @@ class Ctx:
         while oid in seen:  # ids are unique
             k += 1
             oid = f"{base}~{k}"
-        self.obligations.append({"id": oid, "kind": kind, "hyps": list(hyps), "goal": goal, "line": line})
+        self.obligations.append({"id": oid, "kind": kind, "hyps": list(hyps), "goal": goal, "line": line, "inputs": getattr(self, "_inputs", None)})
 
 
 # ----------------------------------------------------------------------------- heap records
